@@ -180,19 +180,6 @@ func (am *assetMgr) loadRep(logger *slog.Logger, assetPath string, as *m.Adaptat
 		Codecs:       as.Codecs,
 		MpdTimescale: 1,
 	}
-	if !am.writeRepData {
-		ok, err := rp.loadFromJSON(logger, am.vodFS, am.repDataDir, assetPath)
-		if ok && err == nil {
-			logger.Debug("Loaded representation data from JSON")
-			return &rp, nil
-		}
-		if err != nil {
-			// A truncated or corrupt file must not leave the asset half loaded. Scan the segments instead.
-			logger.Warn("Unusable representation data file. Reading all segments instead", "err", err.Error())
-			rp = RepData{ID: rep.Id, ContentType: string(as.ContentType), Codecs: as.Codecs, MpdTimescale: 1}
-		}
-	}
-	logger.Debug("Loading full representation by reading all segments")
 	st := as.SegmentTemplate
 	if rep.SegmentTemplate != nil {
 		st = rep.SegmentTemplate
@@ -212,6 +199,29 @@ func (am *assetMgr) loadRep(logger *slog.Logger, assetPath string, as *m.Adaptat
 	if err != nil {
 		return nil, fmt.Errorf("addRegExpAndInit: %w", err)
 	}
+	var thumbDur uint64
+	if rp.ContentType == "image" && st.Duration != nil {
+		thumbDur = uint64(*st.Duration)
+		rp.MediaTimescale = int(st.GetTimescale())
+	}
+	if !am.writeRepData {
+		var cached RepData
+		ok, err := cached.loadFromJSON(logger, am.repDataDir, assetPath, rp.repDataName())
+		if ok && err == nil {
+			// The file may have been written for other segments than the ones now on disk,
+			// or for another asset, so it is only used if it fits this representation.
+			err = rp.useCachedSegments(am.vodFS, assetPath, st, thumbDur, &cached)
+			if err == nil {
+				logger.Debug("Loaded representation data from JSON")
+				return &rp, nil
+			}
+		}
+		if err != nil {
+			// A truncated, corrupt or outdated file must not change what is served. Scan the segments instead.
+			logger.Warn("Unusable representation data file. Reading all segments instead", "err", err.Error())
+		}
+	}
+	logger.Debug("Loading full representation by reading all segments")
 	switch {
 	case st.SegmentTimeline != nil && rp.typeURI() == timeURI:
 		var t uint64
@@ -251,18 +261,9 @@ func (am *assetMgr) loadRep(logger *slog.Logger, assetPath string, as *m.Adaptat
 		nr := startNr
 		var seg Segment
 		var err error
-		var segDur uint64
-		if rp.ContentType == "image" && as.SegmentTemplate.Duration != nil {
-			segDur = uint64(*as.SegmentTemplate.Duration)
-			rp.MediaTimescale = int(as.SegmentTemplate.GetTimescale())
-		}
 		for {
 			// Loop until we cannot find more files
-			if rp.ContentType != "image" {
-				seg, err = rp.readMP4Segment(am.vodFS, assetPath, 0, nr)
-			} else {
-				seg, err = rp.readThumbSegment(am.vodFS, assetPath, nr, startNr, segDur)
-			}
+			seg, err = rp.readSegment(am.vodFS, assetPath, 0, nr, startNr, thumbDur)
 			if err != nil {
 				if !errors.Is(err, fs.ErrNotExist) {
 					return nil, fmt.Errorf("readSegment %w", err)
@@ -309,11 +310,12 @@ segLoop:
 }
 
 // loadFromJSON reads the representation data from a gzipped or plain JSON file.
-func (rp *RepData) loadFromJSON(logger *slog.Logger, vodFS fs.FS, repDataDir, assetPath string) (bool, error) {
+// The first return value tells if there was a file.
+func (rp *RepData) loadFromJSON(logger *slog.Logger, repDataDir, assetPath, repDataName string) (bool, error) {
 	if repDataDir == "" {
 		return false, nil
 	}
-	repDataPath := path.Join(repDataDir, assetPath, rp.repDataName())
+	repDataPath := path.Join(repDataDir, assetPath, repDataName)
 	gzipPath := repDataPath + ".gz"
 	var data []byte
 	_, err := os.Stat(gzipPath)
@@ -350,11 +352,128 @@ func (rp *RepData) loadFromJSON(logger *slog.Logger, vodFS fs.FS, repDataDir, as
 	if err := json.Unmarshal(data, &rp); err != nil {
 		return true, err
 	}
-	err = rp.addRegExpAndInit(logger, vodFS, assetPath)
-	if err != nil {
-		return true, fmt.Errorf("addRegExpAndInit: %w", err)
-	}
 	return true, nil
+}
+
+// useCachedSegments takes over the segment list of cached representation data after checking
+// that the data describes this representation as it is given by the MPD and the files on disk.
+// The cached data may be outdated (segments replaced, renamed or cut in another way after it was written)
+// or come from another asset. The checks are cheap compared to reading all segments:
+// the MPD and init segment values, the presence of the segment files, and the timing
+// of the first and the last segment are compared with the cached data.
+// rp must have been set up from the MPD and the init segment. It is only changed if nil is returned.
+func (rp *RepData) useCachedSegments(vodFS fs.FS, assetPath string, st *m.SegmentTemplateType, thumbDur uint64, cached *RepData) error {
+	switch {
+	case cached.ID != rp.ID:
+		return fmt.Errorf("cached id %q differs from %q", cached.ID, rp.ID)
+	case cached.ContentType != rp.ContentType || cached.Codecs != rp.Codecs:
+		return fmt.Errorf("cached content type %q or codecs %q differ from MPD", cached.ContentType, cached.Codecs)
+	case cached.InitURI != rp.InitURI || cached.MediaURI != rp.MediaURI:
+		return fmt.Errorf("cached URIs %q and %q differ from MPD", cached.InitURI, cached.MediaURI)
+	case cached.MpdTimescale != rp.MpdTimescale:
+		return fmt.Errorf("cached MPD timescale %d differs from MPD", cached.MpdTimescale)
+	case cached.MediaTimescale != rp.MediaTimescale:
+		return fmt.Errorf("cached media timescale %d differs from %d", cached.MediaTimescale, rp.MediaTimescale)
+	case cached.PreEncrypted != rp.PreEncrypted:
+		return fmt.Errorf("cached preEncrypted differs from init segment")
+	case cached.ConstantSampleDuration == nil:
+		return fmt.Errorf("no cached constant sample duration")
+	case len(cached.Segments) == 0:
+		return fmt.Errorf("no cached segments")
+	}
+	segs := cached.Segments
+	last := len(segs) - 1
+	// The cached segments should be the ones that a scan looks for
+	switch {
+	case st.SegmentTimeline != nil && rp.typeURI() == timeURI:
+		var t uint64
+		i := 0
+		for _, s := range st.SegmentTimeline.S {
+			if s.T != nil {
+				t = *s.T
+			}
+			for j := 0; j == 0 || j <= s.R; j++ {
+				if i > last || segs[i].StartTime != t {
+					return fmt.Errorf("cached segment %d does not match SegmentTimeline", i+1)
+				}
+				i++
+				t += s.D
+			}
+		}
+		if i != len(segs) {
+			return fmt.Errorf("%d cached segments but %d in SegmentTimeline", len(segs), i)
+		}
+	case st.SegmentTimeline == nil && rp.typeURI() == numberURI:
+		startNr := uint32(1)
+		if st.StartNumber != nil {
+			startNr = *st.StartNumber
+		}
+		for i, seg := range segs {
+			if seg.Nr != startNr+uint32(i) {
+				return fmt.Errorf("cached segment %d has number %d", i+1, seg.Nr)
+			}
+			if st.EndNumber != nil && seg.Nr == *st.EndNumber && i != last {
+				return fmt.Errorf("cached segments beyond endNumber %d", *st.EndNumber)
+			}
+			if i > 0 && seg.StartTime != segs[i-1].EndTime {
+				return fmt.Errorf("cached segment %d does not start where the previous one ends", i+1)
+			}
+		}
+		if st.EndNumber == nil || segs[last].Nr != *st.EndNumber {
+			_, err := fs.Stat(vodFS, path.Join(assetPath, replaceTimeAndNr(rp.MediaURI, 0, segs[last].Nr+1)))
+			if err == nil {
+				return fmt.Errorf("segments after cached last segment %d", segs[last].Nr)
+			}
+		}
+	default:
+		return fmt.Errorf("cached data for unsupported type of representation")
+	}
+	for _, seg := range segs {
+		_, err := fs.Stat(vodFS, path.Join(assetPath, replaceTimeAndNr(rp.MediaURI, seg.StartTime, seg.Nr)))
+		if err != nil {
+			return fmt.Errorf("cached segment: %w", err)
+		}
+	}
+	// Read the first and last segment as in a scan and compare
+	probe := *rp
+	first, err := probe.readSegment(vodFS, assetPath, segs[0].StartTime, segs[0].Nr, segs[0].Nr, thumbDur)
+	if err != nil {
+		return fmt.Errorf("read first segment: %w", err)
+	}
+	lastSeg := first
+	if last > 0 {
+		lastSeg, err = probe.readSegment(vodFS, assetPath, segs[last].StartTime, segs[last].Nr, segs[0].Nr, thumbDur)
+		if err != nil {
+			return fmt.Errorf("read last segment: %w", err)
+		}
+	}
+	if rp.typeURI() == numberURI && last > 0 {
+		first.EndTime = segs[0].EndTime // Is start of next segment in a scan. The file does not tell.
+	}
+	// A scan finds a constant sample duration if all segments agree. The segments in between are not read here.
+	constDur := first.CommonSampleDur
+	if lastSeg.CommonSampleDur != constDur {
+		constDur = 0
+	}
+	cachedConstDur := *cached.ConstantSampleDuration
+	switch {
+	case first.StartTime != segs[0].StartTime || first.EndTime != segs[0].EndTime:
+		return fmt.Errorf("cached first segment interval %d-%d but file has %d-%d",
+			segs[0].StartTime, segs[0].EndTime, first.StartTime, first.EndTime)
+	case lastSeg.StartTime != segs[last].StartTime || lastSeg.EndTime != segs[last].EndTime:
+		return fmt.Errorf("cached last segment interval %d-%d but file has %d-%d",
+			segs[last].StartTime, segs[last].EndTime, lastSeg.StartTime, lastSeg.EndTime)
+	case cached.DefaultSampleDuration != probe.DefaultSampleDuration:
+		return fmt.Errorf("cached default sample duration %d but files have %d",
+			cached.DefaultSampleDuration, probe.DefaultSampleDuration)
+	case cachedConstDur != constDur && (cachedConstDur != 0 || last < 2):
+		return fmt.Errorf("cached constant sample duration %d but files have %d and %d",
+			cachedConstDur, first.CommonSampleDur, lastSeg.CommonSampleDur)
+	}
+	rp.Segments = segs
+	rp.DefaultSampleDuration = cached.DefaultSampleDuration
+	rp.ConstantSampleDuration = cached.ConstantSampleDuration
+	return nil
 }
 
 func (rp *RepData) addRegExpAndInit(logger *slog.Logger, vodFS fs.FS, assetPath string) error {
@@ -992,6 +1111,14 @@ func (r *RepData) readMP4Segment(vodFS fs.FS, assetPath string, time uint64, nr 
 	}
 
 	return seg, nil
+}
+
+// readSegment reads an MP4 segment, or a thumbnail for image representations.
+func (r *RepData) readSegment(vodFS fs.FS, assetPath string, time uint64, nr, startNr uint32, thumbDur uint64) (Segment, error) {
+	if r.ContentType == "image" {
+		return r.readThumbSegment(vodFS, assetPath, nr, startNr, thumbDur)
+	}
+	return r.readMP4Segment(vodFS, assetPath, time, nr)
 }
 
 // readThumbSegment reads a thumbnail segment, and returns an error if file does not exist.
